@@ -78,11 +78,15 @@ def run(facts, rep, ctx):
     # forms by number of data bytes
     forms = []
     seen = {}
+    unknown_emission = None
     for p in enc.loop_paths():
         classes = enc.branch_of(p)
         if any(op == "Lt" and truth for (op, c, truth) in classes):
             continue
         slots = [s for s in enc.emissions(p) if not (len(s) > 2 and s[2] == "merge-into-existing")]
+        if enc.emission_unknown:
+            unknown_emission = enc.emission_unknown
+            continue
         n = len(slots)
         lo, hi = length_interval(classes, L)
         if lo > hi:
@@ -98,6 +102,9 @@ def run(facts, rep, ctx):
             continue
         seen.setdefault(n, []).append((lo, hi, got))
     for n, (name, (flo, fhi), spec) in sorted(FORMS.items()):
+        if n not in seen and unknown_emission:
+            rep.inconc(R2, "the %s LZ11 form was not found among the recognised emissions, and some token bytes are stored in a way this rule does not read (%s)" % (name, unknown_emission))
+            continue
         if n not in seen:
             rep.violation(R2, b.name, "form-missing:" + name, "no branch emits the %s LZ11 form" % name, where)
             continue
